@@ -18,7 +18,7 @@ import (
 func init() { register("c06", "partition isolation: id pairs through real sessions", runC06) }
 
 type c06Case struct {
-	P, Q, Svc, Prod string // hex
+	P, Q, Svc, Prod string  // hex
 	Suffix          *string `json:"Suffix"` // hex or null (session P's metastore suffix)
 	SuffixQ         *string `json:"SuffixQ"`
 	IKQ, SKQ        string  // hex: ids the SDK used for partition Q (observed)
@@ -28,6 +28,22 @@ type c06Case struct {
 	Own             string // outcome of decrypting Q's record in Q's session
 	EmptyRefused    bool
 	Refused         string `json:"Refused,omitempty"` // "P" / "Q": GetSession refused this non-empty id
+	Pol             string `json:"Pol,omitempty"`     // "" default | shared (shared IK cache) | sesscache | nocache | shared+sesscache
+	Same            bool   `json:"Same,omitempty"`    // both sessions come from ONE factory (its caches are warm with Q's keys)
+}
+
+func c06Policy(name string) *ae.CryptoPolicy {
+	switch name {
+	case "shared":
+		return ae.NewCryptoPolicy(ae.WithSharedIntermediateKeyCache(8))
+	case "sesscache":
+		return ae.NewCryptoPolicy(ae.WithSessionCache())
+	case "shared+sesscache":
+		return ae.NewCryptoPolicy(ae.WithSharedIntermediateKeyCache(8), ae.WithSessionCache())
+	case "nocache":
+		return ae.NewCryptoPolicy(ae.WithNoCache())
+	}
+	return ae.NewCryptoPolicy()
 }
 
 // idPieces are the building blocks of adversarial partition ids.
@@ -74,6 +90,8 @@ func runC06(a *args) error {
 		var c c06Case
 		var p, q, svc, prod string
 		var sufP, sufQ string
+		var pol string
+		var same bool
 		if len(cases) > 0 {
 			c = cases[0]
 			cases = cases[1:]
@@ -84,6 +102,7 @@ func runC06(a *args) error {
 			if c.SuffixQ != nil {
 				sufQ = unhex(*c.SuffixQ)
 			}
+			pol, same = c.Pol, c.Same
 			i--
 		} else {
 			svc, prod = gen.Pick(r, svcs), gen.Pick(r, prods)
@@ -115,8 +134,12 @@ func runC06(a *args) error {
 			case 2: // different regions
 				sufP, sufQ = gen.Pick(r, sufs), gen.Pick(r, sufs)
 			}
+			if r.Chance(1, 2) {
+				pol = gen.Pick(r, []string{"shared", "shared", "sesscache", "shared+sesscache", "nocache"})
+			}
+			same = sufP == sufQ && r.Chance(1, 2)
 		}
-		c = c06Case{P: gen.H(p), Q: gen.H(q), Svc: gen.H(svc), Prod: gen.H(prod)}
+		c = c06Case{P: gen.H(p), Q: gen.H(q), Svc: gen.H(svc), Prod: gen.H(prod), Pol: pol, Same: same}
 		if sufP != "" {
 			h := gen.H(sufP)
 			c.Suffix = &h
@@ -133,10 +156,19 @@ func runC06(a *args) error {
 		sf := spy.NewSecretFactory(nil, nil)
 		sf.Quiet = true
 		mk := func(ms ae.Metastore) *ae.SessionFactory {
-			return ae.NewSessionFactory(&ae.Config{Service: svc, Product: prod, Policy: ae.NewCryptoPolicy()}, ms, k, crypto,
+			return ae.NewSessionFactory(&ae.Config{Service: svc, Product: prod, Policy: c06Policy(pol)}, ms, k, crypto,
 				ae.WithSecretFactory(sf))
 		}
-		fP, fQ := mk(viewP), mk(viewQ)
+		fP := mk(viewP)
+		fQ := fP
+		if !same {
+			fQ = mk(viewQ)
+		}
+		closeQ := func() {
+			if !same {
+				fQ.Close()
+			}
+		}
 		if _, err := fP.GetSession(""); err != nil {
 			c.EmptyRefused = true
 		}
@@ -144,7 +176,7 @@ func runC06(a *args) error {
 		if err != nil { // a non-empty id the SDK refuses: nothing to isolate; recorded and skipped by the check
 			c.Refused = "Q"
 			fP.Close()
-			fQ.Close()
+			closeQ()
 			out = append(out, c)
 			continue
 		}
@@ -153,7 +185,7 @@ func runC06(a *args) error {
 			c.Refused = "P"
 			sQ.Close()
 			fP.Close()
-			fQ.Close()
+			closeQ()
 			out = append(out, c)
 			continue
 		}
@@ -175,7 +207,7 @@ func runC06(a *args) error {
 		sP.Close()
 		sQ.Close()
 		fP.Close()
-		fQ.Close()
+		closeQ()
 		out = append(out, c)
 	}
 	return gen.WriteJSON(a.out, map[string]any{"cases": out})
